@@ -250,8 +250,10 @@ func (w *wbuild) Drive(s *simrt.Sched, out *RunResult) {
 		// a directory sitting where a file output belongs is not among the destination
 		// states the properties name: such targets are left open (MAY re-execute)
 		w.dirInWay = map[string]bool{}
+		w.diskBefore = map[string]Listing{}
 		for _, l := range w.U.Labels() {
 			sp := w.U.Specs[l]
+			w.diskBefore[l] = diskListing(m.WS, sp)
 			for _, o := range sp.Outs {
 				if o.Kind != "dir" {
 					if st, err := os.Lstat(filepath.Join(m.WS, sp.Pkg, o.Path)); err == nil && st.IsDir() {
@@ -697,6 +699,7 @@ func (w *wbuild) checkBuild(res *InvResult, req BuildReq, opts InvOpts, cm *cach
 		return
 	}
 	ev := NewEval(u, opts.Platform)
+	diskBefore := w.diskBefore
 	if req.Kind == "run" {
 		req.Kind = "build"
 	}
@@ -705,7 +708,11 @@ func (w *wbuild) checkBuild(res *InvResult, req BuildReq, opts InvOpts, cm *cach
 	if w.fs != nil {
 		faulted, crashed, signalled = w.fs.fired > 0, w.fs.crashed, w.fs.sigStep != 0
 	}
+	if len(res.Events) == 0 && res.ExitCode == 0 && !crashed {
+		simrt.Probe("build-executed-nothing")
+	}
 	if crashed {
+		simrt.Probe("invocation-killed")
 		// killed: whatever it executed may or may not have reached the cache, taints may or
 		// may not have been consumed; the follow-up builds decide (C07: next build satisfies C01)
 		for _, e := range res.Events {
@@ -936,6 +943,20 @@ func (w *wbuild) checkBuild(res *InvResult, req BuildReq, opts InvOpts, cm *cach
 			}
 		} else {
 			status[l] = "ok" // restored
+			simrt.Probe("target-restored-not-executed")
+			for _, d := range u.DepTargets(sp) {
+				if executed[d] > 0 {
+					simrt.Probe("early-cutoff-dependant-restored-after-dependency-executed")
+				}
+			}
+			if w.dirInWay != nil && len(sp.Outs) > 0 {
+				for _, e := range diskBefore[l] {
+					if e.Kind == "missing" {
+						simrt.Probe("restored-into-absent-destination")
+						break
+					}
+				}
+			}
 		}
 	}
 	interrupted := (faulted || signalled) && res.ExitCode != 0
